@@ -18,6 +18,11 @@ def run(ctx):
     for world in ("w1", "w2"):
         r = ctx.tlc("MC_UI", "MC_UI.cfg", consts={"MaxPages": 2 if q else 3, "MaxBuf": 2, "World": '"%s"' % world}, timeout=3000).require_clean()
         res.add_tlc(r)
+    # the assumption the reference rests on: at quiescence a neighbour is loaded iff it exists (any interleaving
+    # of keys and load completions, several thread shapes and preload amounts)
+    for up, down, context in ((5, 4, 1), (5, 4, 2), (3, 6, 3)) if q else ((7, 6, 1), (7, 6, 2), (5, 8, 3), (0, 9, 2), (9, 0, 4)):
+        r = ctx.tlc("Preload", "MC_Preload.cfg", consts={"Up": up, "Down": down, "Context": context}, quiet=True).require_clean()
+        res.add_tlc(r)
     evs = uidrv.ui_events(ctx, res)
     keys, bad = [], []
     for world in ("w1", "w2"):
